@@ -154,6 +154,43 @@ def run(R):
                                 R.check(got.hash == x.hash and inner.type_ == want.type and inner.hash == want.hash, 'type-twin-sequence-confused',
                                         f'{ename}: a cell parsed after its twin of another type came back as type {inner.type_} / hash {inner.hash.hex()[:16]}, the bag denotes type {want.type} / '
                                         f'{want.hash.hex()[:16]}: the result depends on what was parsed before', W)
+    # ---- a cell whose declared type and first data byte disagree (the format stores the type ONLY in that byte) cannot survive a round trip: the library may refuse to
+    # build it, but whatever it lets the caller build must come back from its own serialisation
+    if R.shard == 0:
+        leaf = rc.RC('10110')
+        sub = rc.RC('0110', (leaf,))
+        valid = {1: rc.make_pruned(sub, 1), 2: rc.make_library(bytes(range(32))), 3: rc.make_merkle_proof(sub), 4: rc.make_merkle_update(sub, rc.RC('111', (leaf,)))}
+        for t, ex in valid.items():
+            for first in (1, 2, 3, 4, 0, 5, 0x80, 0xff):
+                if first == t:
+                    continue
+                bits = format(first, '08b') + ex.bits[8:]
+                if t == 1 and first in (1, 2, 3, 4):
+                    pass
+                refs = [bridge.to_lib(x) for x in ex.refs]
+
+                def build():
+                    b = B.Builder(type_=t).store_bits(bits)
+                    for x in refs:
+                        b.store_ref(x)
+                    return b.end_cell()
+                for rname, mk in (('Builder(type_)', build), ('Cell(bits, refs, type)', lambda: B.Cell(bridge.tvm_bits(bits), list(refs), t))):
+                    st, c = mon.call(mk)
+                    R.counters['oracle_evaluations'] += 1
+                    R.count('mistyped_exotic_attempts')
+                    W = {'declared_type': t, 'first_byte': first, 'route': rname}
+                    if st == 'exc':
+                        R.exc(c)
+                        R.count('mistyped_exotic_refused')
+                        continue
+                    for parent in (False, True):
+                        root = c if not parent else mon.call(lambda: B.Builder().store_bits('01').store_ref(c).end_cell())[1]
+                        if isinstance(root, Exception):
+                            continue
+                        st2, back = mon.call(lambda: B.Cell.one_from_boc(root.to_boc()))
+                        R.check(st2 == 'ok' and back.hash == root.hash, 'mistyped-exotic-accepted-but-not-round-trippable',
+                                f'{rname} built a cell of declared type {t} whose first data byte is {first:#04x}; its serialisation ' +
+                                (f'does not parse back ({back!r})' if st2 == 'exc' else 'parses back to another cell') + ' - such a cell must be refused or come back', W)
     inv.uninstall()
     # hex that is also valid base64 and vice versa: form detection must not depend on content
     for b in (b'\xb5\xee\x9c\x72\x01\x01\x01\x01\x00\x02\x00\x00\x00',):
